@@ -27,6 +27,8 @@ inputs, relative 2^-40); run_open (initial masks, exported sizes) per distinct (
 import json
 from .common import *
 from . import c07_cases as cc
+from . import c07_gen
+from .c07_gen import regenerate      # setup.sh regenerates Gen/ImportGen.v through this name
 
 # failing inputs reproduced on the tree before the repairs (DESIGN.md §9 row 20 + tracer eval()); always run first
 CORPUS = [
@@ -142,7 +144,9 @@ def impl_view(o):
 
 def run(ctx):
     torch = setup_torch()
+    gen_rejected = c07_gen.regenerate(ctx)
     built = ctx.build()
+    ctx.extra['generated_model'] = c07_gen.status(gen_rejected, built)
     ctx.rule = ('grammar networks (vlib/gen_arch.py: conv/depthwise/residual/concat/pool blocks, BatchNorm after conv/linear, bias on/off, linear heads; optional second input) '
                 'in float64 x {PIT fold_bn on/off x autoconvert on/off x user-placed PIT* layers (some/all, same/default fold flag) x exclude_names, PIT on integer weights, '
                 'SuperNet with 1..3 SuperNetModules, MPS} x model handed over in train / eval mode; the corpus of the repaired failures runs first. '
@@ -225,6 +229,10 @@ def run(ctx):
             ex2 = ['run_fold %s %s %s %s %s %s' % (coq(Fraction(f['g'])), coq(Fraction(f['be'])), coq(Fraction(f['mu'])), coq(Fraction(f['r'])),
                                                   coq([Fraction(x) for x in f['w']]), 'None' if f['b'] is None else '(Some %s)' % coq(Fraction(f['b']))) for c, f in fl]
             v2 = ctx.coq_eval_sharded('fold', ['Plinio.Model.Import'], '', ex2, shard=200) if ex2 else []
+            # the model GENERATED from the BatchNorm folding / fusion source on this run
+            gv2 = ctx.coq_eval_sharded('gfold', c07_gen.IMPORTS, '', c07_gen.gen_exprs(ex2), shard=200) if ex2 else []
+            mism += c07_gen.differences(fl, v2, gv2)
+            mism += c07_gen.direct(ctx, torch)
             for (c, f), (mw, mb) in zip(fl, v2):
                 ctx.corr += len(mw) + 1
                 okw = len(mw) == len(f['w_folded']) and all(close(a, Fraction(n, d), rel=2.0 ** -40) for a, (n, d) in zip(f['w_folded'], mw))
@@ -262,7 +270,9 @@ def run(ctx):
                         'MPS: only the mode skeleton of the conversion is modelled (the property states nothing else about MPS)']
 
     if not ctx.violations:   # a printed KNOWN-FINDING must not hide a broken proof / model / correspondence
-        if not built:
+        if c07_gen.report(ctx, gen_rejected, built):
+            pass
+        elif not built:
             ctx.violation('proof-broken', {'theorems': [o[0] for o in ctx.obligations if not o[1]], 'log': getattr(ctx, 'broken_log', '')[-3000:]}, 'Props/C07.v no longer checks', no_input=True)
         elif not model_ok:
             ctx.violation('model-eval-broken', {'notes': ctx.notes}, 'the model could not be evaluated', no_input=True)
